@@ -1,6 +1,6 @@
 (* Properties_C04.v — property C04: solution ordering (best first) and cost algebra.  Statements only. *)
 From Coq Require Import List ZArith Bool Sorted Permutation Reals.
-From OmplV Require Import SolModel SolProofs.
+From OmplV Require Import SolModel SolProofs SpacesModel CostModel CostProofs.
 Import ListNotations.
 
 (* for solutions that share one objective (or none), operator< IS the intended lexicographic order:
@@ -47,12 +47,43 @@ Theorem C04_path_length_ge_direct_distance :
     forall p a, (d a (last p a) <= plen X d (a :: p))%R.
 Proof. exact plen_ge_direct. Qed.
 
+(* ---- how a reported path's cost is computed (CostModel.v: PathGeometric::cost with the shipped objectives; its
+   binary64 instance reproduces the library's value bit for bit on every reported path) ---- *)
+(* path length objective: the cost is the path's length, hence (theorem above) never below the direct distance *)
+Theorem C04_length_cost_is_path_length :
+  forall (S : Type) (d : S -> S -> R) (p : list (pt RA S)), cost_length RA S d p = plen S d (map fst p).
+Proof. exact cost_length_is_length. Qed.
+(* state-cost integral: never below (smallest state cost on the path) x (path length): the admissible bound used for it *)
+Theorem C04_integral_cost_lower_bound :
+  forall (S : Type) (d : S -> S -> R), (forall x y, (0 <= d x y)%R) ->
+    forall cmin (p : list (pt RA S)), (0 <= cmin)%R -> Forall (fun s => (cmin <= snd s)%R) p ->
+      (cmin * plen S d (map fst p) <= cost_integral RA S d p)%R.
+Proof. exact cost_integral_lower_bound. Qed.
+(* minimax objectives: the path cost is the worst state cost evaluated along any motion, both end states of every
+   motion included (or the identity cost): the maximum for MinimaxObjective, the minimum for max-min clearance *)
+Theorem C04_minimax_cost_is_max :
+  forall ident motions, Forall (fun ev => ev <> []) motions ->
+    (ident <= mm_path RA better_min ident motions)%R /\
+    (forall ev c, In ev motions -> In c ev -> (c <= mm_path RA better_min ident motions)%R) /\
+    (mm_path RA better_min ident motions = ident \/ exists ev, In ev motions /\ In (mm_path RA better_min ident motions) ev).
+Proof. exact minimax_path_cost_is_max. Qed.
+Theorem C04_clearance_cost_is_min :
+  forall ident motions, Forall (fun ev => ev <> []) motions ->
+    (mm_path RA better_max ident motions <= ident)%R /\
+    (forall ev c, In ev motions -> In c ev -> (mm_path RA better_max ident motions <= c)%R) /\
+    (mm_path RA better_max ident motions = ident \/ exists ev, In ev motions /\ In (mm_path RA better_max ident motions) ev).
+Proof. exact clearance_path_cost_is_min. Qed.
+
 Print Assumptions C04_operator_lt_is_lexicographic.
 Print Assumptions C04_strict_weak_order.
 Print Assumptions C04_set_sorted_after_add.
 Print Assumptions C04_top_is_best.
 Print Assumptions C04_best_never_worse.
 Print Assumptions C04_path_length_ge_direct_distance.
+Print Assumptions C04_length_cost_is_path_length.
+Print Assumptions C04_integral_cost_lower_bound.
+Print Assumptions C04_minimax_cost_is_max.
+Print Assumptions C04_clearance_cost_is_min.
 
 Local Open Scope Z_scope.
 (* non-vacuity *)
